@@ -20,12 +20,16 @@ def seeded():
     res = json.load(open(os.path.join(sd, 'RESULTS.json')))
     out = ['| seeded change | property | what was changed | needs | confirmed | result of the checks |', '|---|---|---|---|---|---|']
     n = det = conc = 0
+    retired = []
     for sid in sorted(res):
         mp = os.path.join(sd, sid, 'meta.json')
         if not os.path.exists(mp):
             continue
         m = json.load(open(mp))
         r = res[sid]
+        if m.get('obsolete'):
+            retired.append('%s (%s)' % (sid, m.get('coordinator_note', '')[-220:]))
+            continue
         n += 1
         checks = '; '.join('%s: %s' % (p, ('VIOLATION (concrete input)' if v.get('concrete_input') else
                                            ('VIOLATION no-failing-input-found' if v.get('violation_lines') else 'passed')))
@@ -37,6 +41,9 @@ def seeded():
         note = m.get('coordinator_note', '')
         out.append('| %s | %s | %s | %s | %s | %s%s |' % (sid, m['property'], m['summary'][:220].replace('|', '/'), m['needs'][:200].replace('|', '/'),
                                                        'yes' if m.get('verified', {}).get('confirmed') else 'NO', checks, (' — ' + note) if note else ''))
+    if retired:
+        out.append('')
+        out.append('Retired seeded changes (made behaviour preserving or unreachable by a later repair): ' + '; '.join(retired))
     return '\n'.join(out), n, det, conc
 
 
